@@ -147,6 +147,19 @@ pub fn run_c15(cfg: &Cfg) -> i32 {
             faults.once.insert("!iAS-SHARED-T,1".into(), Fault::Other("query processing timed out".into()));
             rep.count("cases_with_a_transient_error_on_a_set_two_policies_share");
         }
+        // a policy over an as-set of 150 members without route objects (300 "key not found" answers
+        // that the evaluator logs and skips) next to a policy over an AS with IPv4 routes only
+        // (which skips one such answer itself): what one evaluation had to skip is not the
+        // next one's business
+        let big_set = idx % 4 == 1;
+        if big_set {
+            database.as_sets.insert("AS-VH-BIG".into(), (0..150u32).map(|k| irrfake::db::AsSetMember::As(4_200_100_000 + k)).collect());
+            database.ases.insert(64_999, irrfake::db::AsRoutes { v4: vec![(0xC633_6500, 24)], v6: vec![] });
+            managed.push((format!("{prefix}big-set"), "AS-VH-BIG".to_string()));
+            managed.push((format!("{prefix}v4-only-1"), "AS64999".to_string()));
+            managed.push((format!("{prefix}v4-only-2"), "AS64999 AND {0.0.0.0/0^8-24}".to_string()));
+            rep.count("cases_with_a_policy_that_skips_300_irr_answers");
+        }
         let irr = match Server::start(database.clone(), faults) {
             Ok(s) => s,
             Err(e) => {
@@ -224,6 +237,13 @@ pub fn run_c15(cfg: &Cfg) -> i32 {
                 0 => problems.push("the IRR refused ONE expansion of the shared as-set, yet neither of the two policies naming it was installed".into()),
                 1 => rep.count("transient_error_cost_exactly_the_policy_that_asked"),
                 _ => rep.count("transient_error_not_consumed_by_either_policy"),
+            }
+        }
+        if big_set && run.exit == Some(0) {
+            for n in ["v4-only-1", "v4-only-2"] {
+                if !g.committed.as_ref().map_or(false, |c| c.policies.contains_key(&format!("{prefix}{n}"))) {
+                    problems.push(format!("policy {n} (an AS with IPv4 routes only) was not installed in a run that also evaluated an as-set of 150 route-less members"));
+                }
             }
         }
         if problems.is_empty() {
